@@ -17,6 +17,7 @@ import (
 
 	"github.com/beevik/etree"
 	saml2 "github.com/russellhaering/gosaml2"
+	"github.com/russellhaering/gosaml2/types"
 	dsig "github.com/russellhaering/goxmldsig"
 	"pgregory.net/rapid"
 
@@ -58,6 +59,9 @@ var c17InputsOnce sync.Once
 var c17Inputs []string
 
 // c17Pool: genuine (signed, encrypted), forged and garbage inputs, rendered once for the base SP.
+// c17DigestInputs: pool indexes of the encrypted messages with an explicit key-transport digest.
+var c17DigestInputs []int
+
 func c17Pool() []string {
 	c17InputsOnce.Do(func() {
 		sp := c17SP(0)
@@ -116,6 +120,19 @@ func c17Pool() []string {
 		g2.Enc = []*h.EncSpec{{DataAlg: h.DataAlgs[1], Transport: h.Transports[1], Digest: "-", To: h.CertRef{Key: "E2", Window: "wide"}, Key: make([]byte, 24), IV: make([]byte, 12)}}
 		add(g2)
 		c17Inputs = append(c17Inputs, "", "!!!", base64.StdEncoding.EncodeToString([]byte("<x/>")), base64.StdEncoding.EncodeToString([]byte("<samlp:Response xmlns:samlp=\"urn:oasis:names:tc:SAML:2.0:protocol\"/>")))
+		// (appended last, so that the indexes above stay what stored replays mean) encrypted assertions whose key
+		// transport names its digest EXPLICITLY, one per digest, and one Response with two of them
+		for i, dg := range []string{types.MethodSHA1, types.MethodSHA256, types.MethodSHA512} {
+			g := gridGenuine(sp, 1, "assertions")
+			g.Enc = []*h.EncSpec{{DataAlg: h.DataAlgs[i], Transport: h.Transports[i%2], Digest: dg, To: h.CertRef{Key: "E1", Window: "wide"}, Key: make([]byte, h.KeyLen(h.DataAlgs[i])), IV: make([]byte, 12)}}
+			c17DigestInputs = append(c17DigestInputs, len(c17Inputs))
+			add(g)
+		}
+		g3 := gridGenuine(sp, 2, "assertions")
+		g3.Enc = []*h.EncSpec{{DataAlg: h.DataAlgs[0], Transport: h.Transports[0], Digest: types.MethodSHA256, To: h.CertRef{Key: "E1", Window: "wide"}, Key: make([]byte, 16), IV: make([]byte, 12)},
+			{DataAlg: h.DataAlgs[0], Transport: h.Transports[1], Digest: types.MethodSHA512, To: h.CertRef{Key: "E1", Window: "wide"}, Key: make([]byte, 16), IV: make([]byte, 12)}}
+		c17DigestInputs = append(c17DigestInputs, len(c17Inputs))
+		add(g3)
 	})
 	return c17Inputs
 }
@@ -764,6 +781,30 @@ func TestC17_GridFirstUse(t *testing.T) {
 		c := C17Case{SP: c17SP(2)}
 		for g := 0; g < 48; g++ {
 			c.Ops = append(c.Ops, []C17Op{{Kind: []string{"authn-str", "logout-req", "sign-el", "logout-resp"}[(g+i)%4], Input: 0, Arg: "r"}})
+		}
+		cases = append(cases, c)
+	}
+	h.RunCases(t, "C17.conc", cases, checkC17Conc)
+}
+
+// TestC17_GridDecrypt: many goroutines decrypt and validate encrypted assertions at the same time — every key
+// transport digest, on one service provider: each call returns what it returns alone (and the race detector
+// watches whatever the decryption shares).
+func TestC17_GridDecrypt(t *testing.T) {
+	c17Pool()
+	var cases []C17Case
+	reps := 40
+	if h.Thorough() {
+		reps = 300
+	}
+	for i := 0; i < reps; i++ {
+		c := C17Case{SP: c17SP(i % 2)}
+		for g := 0; g < 32; g++ {
+			in := c17DigestInputs[(g+i)%len(c17DigestInputs)]
+			if i%4 == 3 {
+				in = c17DigestInputs[i%len(c17DigestInputs)] // everybody the same message
+			}
+			c.Ops = append(c.Ops, []C17Op{{Kind: []string{"validate", "retrieve"}[g%2], Input: in}})
 		}
 		cases = append(cases, c)
 	}
